@@ -25,19 +25,19 @@ package parquet
 
 // Shape invariant of the metadata accumulator: a serializer is attached and
 // every row group carries its column map.
-//@ pred metaOK(m) := m != nil && m.ts != nil && (forall k in 0..#m.rowGroups: m.rowGroups[k].columns != nil)
+//@ pred metaOK(m) := m != nil && m.ts != nil && (forall k in 0..#m.rowGroups: m.rowGroups[k].columns != nil && ref(m.rowGroups[k].rowGroup.Columns) == 0)
 
 //@ func (*writeCounter).Write
 //@   requires w != nil && isBB(w.w)
 //@   modifies w, asBB(w.w), HA(asBB(w.w).B)
 //@   ensures err == nil && res0 == #p && w.n == old(w.n) + #p && w.w == old(w.w) && sameOrFresh(asBB(w.w).B)
-//@   ensures[C09] wfault && !old(wfault) ==> err != nil
+//@   ensures[C09] err == nil ==> (wfault ==> old(wfault))
 
 //@ func writeLevels
 //@   requires width <= 4 && isWC(w)
 //@   modifies asWC(w), asBB(asWC(w).w), HA(asBB(asWC(w).w).B)
 //@   ensures err == nil && asWC(w).w == old(asWC(w).w) && sameOrFresh(asBB(asWC(w).w).B)
-//@   ensures[C09] wfault && !old(wfault) ==> err != nil
+//@   ensures[C09] err == nil ==> (wfault ==> old(wfault))
 //@ loop writeLevels#1
 //@   modifies enc, enc.out, HA(enc.out.d), HA(enc.valBuf)
 //@   invariant enc != nil && enc.out != nil && #enc.valBuf == 8 && freshsince(enc) && freshsince(enc.out) && freshsince(enc.valBuf) && freshsince(enc.out.d)
@@ -46,7 +46,7 @@ package parquet
 //@   requires buf != nil
 //@   modifies buf, HA(buf.B)
 //@   ensures sameOrFresh(buf.B)
-//@   ensures[C09] wfault && !old(wfault) ==> res3 != nil
+//@   ensures[C09] res3 == nil ==> (wfault ==> old(wfault))
 
 //@ func (*RowGroup).updateColumnChunk
 //@   requires r != nil && r.columns != nil
@@ -54,24 +54,96 @@ package parquet
 
 //@ func (*Metadata).updateRowGroup
 //@   requires metaOK(m)
-//@   ensures metaOK(m)
+//@   ensures metaOK(m) && m.rowGroups == old(m.rowGroups)
 //@   modifies HA(m.rowGroups), heap("sch.ColumnMetaData"), heap("map[string]sch.ColumnChunk")
 
 //@ func (*Metadata).WritePageHeader
 //@   requires metaOK(m) && external(w)
-//@   ensures metaOK(m)
+//@   ensures metaOK(m) && m.rowGroups == old(m.rowGroups)
 //@   modifies m, HA(m.rowGroups), heap("sch.ColumnMetaData"), heap("map[string]sch.ColumnChunk"), wfault
-//@   ensures[C09] wfault && !old(wfault) ==> err != nil
+//@   ensures[C09] err == nil ==> (wfault ==> old(wfault))
 
 //@ func (*RequiredField).DoWrite
 //@   requires f != nil && metaOK(meta) && external(w)
-//@   ensures metaOK(meta)
+//@   ensures metaOK(meta) && meta.rowGroups == old(meta.rowGroups)
 //@   modifies meta, HA(meta.rowGroups), heap("sch.ColumnMetaData"), heap("map[string]sch.ColumnChunk"), wfault
-//@   ensures[C09] wfault && !old(wfault) ==> err != nil
+//@   ensures[C09] err == nil ==> (wfault ==> old(wfault))
 
 //@ func (*OptionalField).DoWrite
 //@   requires f != nil && metaOK(meta) && external(w)
-//@   ensures metaOK(meta)
-//@   requires f.MaxLevels.Def <= 15 && f.MaxLevels.Rep <= 15
+//@   ensures metaOK(meta) && meta.rowGroups == old(meta.rowGroups)
+//@   free-requires f.MaxLevels.Def <= 15 && f.MaxLevels.Rep <= 15
 //@   modifies meta, HA(meta.rowGroups), heap("sch.ColumnMetaData"), heap("map[string]sch.ColumnChunk"), wfault
-//@   ensures[C09] wfault && !old(wfault) ==> err != nil
+//@   ensures[C09] err == nil ==> (wfault ==> old(wfault))
+
+// ---- footer and schema
+
+//@ functype func(*sch.SchemaElement)
+//@   requires arg0 != nil
+//@   modifies arg0
+
+//@ func (schema).schema
+//@   modifies heap("sch.SchemaElement")
+//@ loop (schema).schema#1
+//@   invariant freshsince(out) && #out >= 1
+//@ loop (schema).schema#2
+//@   invariant freshsince(out) && #out >= 1
+
+//@ func (*Metadata).Footer
+//@   requires metaOK(m) && external(w)
+//@   modifies heap("sch.ColumnMetaData"), heap("sch.SchemaElement"), wfault
+//@   ensures[C09] err == nil ==> (wfault ==> old(wfault))
+//@ loop (*Metadata).Footer#1
+//@   invariant wfault == old(wfault) && freshOrNil(fmd.RowGroups)
+//@ loop (*Metadata).Footer#2
+//@   invariant wfault == old(wfault) && freshOrNil(rg.Columns) && freshOrNil(fmd.RowGroups)
+
+//@ func schemaElements
+//@   modifies nothing
+//@   ensures res.lookup != nil && res.fields == fields
+//@ loop schemaElements#1
+//@   invariant m != nil && freshsince(m)
+
+//@ func (*Metadata).StartRowGroup
+//@   requires metaOK(m)
+//@   modifies m, HA(m.rowGroups)
+//@   ensures metaOK(m) && sameOrFresh(m.rowGroups)
+
+//@ func New
+//@   modifies nothing
+//@   ensures metaOK(res) && freshsince(res) && freshOrNil(res.rowGroups)
+
+//@ func (*Metadata).NextDoc
+//@   modifies m
+
+//@ functype func(*parquet.RequiredField)
+//@   requires arg0 != nil
+//@   modifies arg0
+//@ functype func(*parquet.OptionalField)
+//@   requires arg0 != nil
+//@   modifies arg0
+
+//@ func NewRequiredField
+//@   modifies nothing
+//@ loop NewRequiredField#1
+//@   invariant true
+
+//@ func NewOptionalField
+//@   modifies nothing
+//@ loop NewOptionalField#1
+//@   invariant true
+
+//@ func getRepetitionTypes
+//@   modifies nothing
+//@   ensures #res == #in
+//@ loop getRepetitionTypes#1
+//@   invariant freshsince(out) && #out == #in && 0 <= rangeindex + 1
+
+//@ func (RepetitionTypes).MaxDef
+//@   modifies nothing
+//@ loop (RepetitionTypes).MaxDef#1
+//@   invariant true
+//@ func (RepetitionTypes).MaxRep
+//@   modifies nothing
+//@ loop (RepetitionTypes).MaxRep#1
+//@   invariant true
